@@ -367,6 +367,9 @@ def run(case):
         if job is None:
             sim.bad('C07', 'flux:task_never_submitted', u)
             continue
+        if not ends and job['canceled']:
+            sim.bad('C08', 'flux:canceled_task_never_ends', '%s was killed on request (partition %d) and '
+                    'is never handed on as CANCELED' % (u, job['part']))
         if len(ends) != 1:
             sim.bad('C07', 'flux:handed_on_%s' % ('never' if not ends else 'twice'),
                     '%s fate %s, job id after %d events: %s'
